@@ -17,10 +17,13 @@ import (
 	"io"
 	"math/rand"
 	"net"
+	"os"
+	"runtime"
 	"sort"
 	"strings"
 	"sync"
 	"sync/atomic"
+	"syscall"
 	"time"
 
 	"github.com/TarsCloud/TarsGo/tars"
@@ -199,6 +202,7 @@ type c11Server struct {
 	stopped bool
 	wg      sync.WaitGroup
 
+	holdFd    int               // mode "down": bound, not listening socket that reserves the port while the server is down (-1: none)
 	srvClosed map[net.Conn]bool // connections the server itself has closed from outside their serve goroutine
 	version   int16             // protocol version of the last request (for the close notification)
 }
@@ -221,7 +225,7 @@ func c11StartServer(mode string, k int, log *c11Log) (*c11Server, error) {
 	if err != nil {
 		return nil, err
 	}
-	s := &c11Server{ln: ln, port: ln.Addr().(*net.TCPAddr).Port, mode: mode, k: k, log: log, conns: map[net.Conn]bool{}, srvClosed: map[net.Conn]bool{}, version: 1}
+	s := &c11Server{ln: ln, port: ln.Addr().(*net.TCPAddr).Port, mode: mode, k: k, log: log, conns: map[net.Conn]bool{}, srvClosed: map[net.Conn]bool{}, version: 1, holdFd: -1}
 	s.wg.Add(1)
 	go s.acceptLoop(ln)
 	return s, nil
@@ -251,6 +255,10 @@ func (s *c11Server) acceptLoop(ln net.Listener) {
 func (s *c11Server) stop() {
 	s.mu.Lock()
 	s.stopped = true
+	if s.holdFd >= 0 {
+		syscall.Close(s.holdFd)
+		s.holdFd = -1
+	}
 	ln := s.ln
 	for c := range s.conns {
 		c.Close()
@@ -298,17 +306,50 @@ func (s *c11Server) pushConns(closeAfter bool) {
 }
 
 // goDown (mode "down") closes every connection and the listener: the endpoint refuses connections until comeUp.
+// The port stays reserved by a socket that is bound but does not listen, so that neither another listener (another
+// script's server) nor an outgoing connection (the client's own dial: TCP self-connect) can take it meanwhile.
 func (s *c11Server) goDown() {
 	s.closeConns()
 	s.mu.Lock()
 	ln := s.ln
 	s.mu.Unlock()
 	ln.Close()
+	for i := 0; i < 50; i++ {
+		fd, err := syscall.Socket(syscall.AF_INET, syscall.SOCK_STREAM|syscall.SOCK_CLOEXEC, 0)
+		if err != nil {
+			return
+		}
+		syscall.SetsockoptInt(fd, syscall.SOL_SOCKET, syscall.SO_REUSEADDR, 1)
+		if err = syscall.Bind(fd, &syscall.SockaddrInet4{Port: s.port, Addr: [4]byte{127, 0, 0, 1}}); err == nil {
+			s.mu.Lock()
+			s.holdFd = fd
+			s.mu.Unlock()
+			return
+		}
+		syscall.Close(fd)
+		time.Sleep(2 * time.Millisecond)
+	}
 }
 
-// comeUp listens again on the same port.
+// comeUp listens again on the same port (on the reserved socket when there is one).
 func (s *c11Server) comeUp() error {
-	ln, err := c11Listen(s.port)
+	s.mu.Lock()
+	fd := s.holdFd
+	s.holdFd = -1
+	s.mu.Unlock()
+	var ln net.Listener
+	var err error
+	if fd >= 0 {
+		if err = syscall.Listen(fd, 128); err == nil {
+			f := os.NewFile(uintptr(fd), "c11-listener")
+			ln, err = net.FileListener(f)
+			f.Close()
+		} else {
+			syscall.Close(fd)
+		}
+	} else {
+		ln, err = c11Listen(s.port)
+	}
 	if err != nil {
 		return err
 	}
@@ -493,6 +534,7 @@ type c11Case struct {
 	Rounds    int    `json:"rounds"`               // number of closes
 	OffsMs    []int  `json:"offs_ms,omitempty"`    // pushcmd: the calls of a round are issued this many ms after the observed client swap
 	PushClose bool   `json:"push_close,omitempty"` // pushcmd: the server closes the notified connection itself right after the notification
+	QueueLen  int    `json:"queue_len,omitempty"`  // > 0: length of the client's send queue (default 10000)
 	PauseUs   int    `json:"pause_us,omitempty"`   // > 0: each round is two sets of calls on the same connection with this idle period between them
 
 	Events   []c11Event `json:"events,omitempty"`
@@ -516,8 +558,44 @@ func c11Call(sp *tars.ServantProxy, callNo int) error {
 	return nil
 }
 
-// c11RunOnce executes the script once and returns the ordered event log.
+// c11Hung counts script executions that did not finish within c11ScriptLimit; c11HangDir is where the goroutine
+// dump of the first one is written.
+var (
+	c11Hung    int32
+	c11HangDir string
+)
+
+const c11ScriptLimit = 120 * time.Second
+
+// c11RunOnce executes the script once under a watchdog: an execution that does not come back (which no script should
+// do: every wait in it is bounded) is abandoned, all goroutine stacks are written to c11-hang.txt in the output
+// directory for diagnosis, and the execution is treated like a failed set-up (not judged).
 func c11RunOnce(c *c11Case) ([]c11Event, string) {
+	type res struct {
+		evs  []c11Event
+		serr string
+	}
+	ch := make(chan res, 1)
+	cc := *c
+	go func() {
+		evs, serr := c11RunScript(&cc)
+		ch <- res{evs, serr}
+	}()
+	select {
+	case r := <-ch:
+		return r.evs, r.serr
+	case <-time.After(c11ScriptLimit):
+		if atomic.AddInt32(&c11Hung, 1) == 1 && c11HangDir != "" {
+			buf := make([]byte, 8<<20)
+			n := runtime.Stack(buf, true)
+			os.WriteFile(c11HangDir+"/c11-hang.txt", append([]byte(fmt.Sprintf("script %+v did not finish within %v\n\n", cc, c11ScriptLimit)), buf[:n]...), 0o644)
+		}
+		return nil, "script execution abandoned by the watchdog"
+	}
+}
+
+// c11RunScript executes the script once and returns the ordered event log.
+func c11RunScript(c *c11Case) ([]c11Event, string) {
 	c11InstallHook()
 	log := c11NewLog()
 	if c.Seq < 1 {
@@ -533,6 +611,12 @@ func c11RunOnce(c *c11Case) ([]c11Event, string) {
 	}
 	defer srv.stop()
 	comm := tars.NewCommunicator()
+	if c.QueueLen > 0 {
+		// a private copy of the client configuration of this communicator with a short send queue
+		cfg := *comm.Client
+		cfg.ClientQueueLen = c.QueueLen
+		comm.Client = &cfg
+	}
 	prx := &c11Prx{}
 	comm.StringToProxy(fmt.Sprintf("C11.Obj.P%d@tcp -h 127.0.0.1 -p %d -t 60000", srv.port, srv.port), prx)
 	sp := prx.s.(*tars.ServantProxy)
@@ -897,6 +981,7 @@ const (
 	c11SigOnce   = "client-conn/request-not-exactly-once-at-server"
 	c11SigRedial = "client-conn/healthy-connection-redialled"
 	c11SigSelf   = "client-conn/healthy-connection-closed-by-client"
+	c11SigLate   = "client-conn/failed-call-delivered-later"
 )
 
 func c11Monitor(c *c11Case, evs []c11Event) map[string]string {
@@ -916,6 +1001,7 @@ func c11Monitor(c *c11Case, evs []c11Event) map[string]string {
 		per, total = 0, 1+c.Rounds*(c.Seq+c.Burst)
 	}
 	down := map[int]bool{} // calls issued while the server was down: not judged
+	failed := map[int]bool{}
 	arrivals := map[int]int{}
 	closedByPeer := map[int]bool{}
 	lastDial := -1
@@ -959,6 +1045,7 @@ func c11Monitor(c *c11Case, evs []c11Event) map[string]string {
 			}
 		case "fail":
 			finished[e.ID] = true
+			failed[e.ID] = true
 			if down[e.ID] {
 				continue
 			}
@@ -967,6 +1054,9 @@ func c11Monitor(c *c11Case, evs []c11Event) map[string]string {
 	}
 	if len(finished) == total {
 		for id := 0; id < total; id++ {
+			if down[id] && failed[id] && arrivals[id] > 0 {
+				out[c11SigLate] = fmt.Sprintf("call %d returned an error while the server was down, but its request arrived %d time(s) at the server later", id, arrivals[id])
+			}
 			if arrivals[id] != 1 && !down[id] {
 				out[c11SigOnce] = fmt.Sprintf("request %d arrived %d times at the server", id, arrivals[id])
 				break
@@ -1034,7 +1124,7 @@ func c11Run(c *c11Case) []Failure {
 			} else if c.Mode == "held" {
 				what = fmt.Sprintf("send goroutine held just before its write, server closes the connection, %d further call(s) %d us after the observed close, then the goroutine is released", c.Burst, c.DelayUs)
 			} else if c.Mode == "down" {
-				what = fmt.Sprintf("server closes the connection and stops listening, %d call(s) while it is down, server listens again, %d call(s) %d us later", c.Seq, c.Burst, c.DelayUs)
+				what = fmt.Sprintf("server closes the connection and stops listening, %d call(s) while it is down (client send queue length %d, 0 = default), server listens again, %d call(s) %d us later", c.Seq, c.QueueLen, c.Burst, c.DelayUs)
 			} else if c.Mode == "pushcmd" {
 				what = fmt.Sprintf("server sends the close notification on the connection in use (closes it itself: %v), calls %v ms after the observed client swap", c.PushClose, c.OffsMs)
 			} else if c.PauseUs > 0 {
@@ -1140,6 +1230,9 @@ func c11Gen(tier string, rng *rand.Rand) []c11Case {
 			d = d/2 + rng.Intn(d)
 		}
 		cs = append(cs, c11Case{Mode: "down", Burst: 1 + rng.Intn(3), Seq: 1 + r%2, DelayUs: d, Rounds: 2})
+		// a long outage for a short send queue: more failed calls than the queue holds
+		ql := 2 + r%2
+		cs = append(cs, c11Case{Mode: "down", Burst: 2 + rng.Intn(2), Seq: ql + 2 + rng.Intn(2), DelayUs: d, Rounds: 1 + r%2, QueueLen: ql})
 	}
 	for r := 0; r < 2*reps; r++ {
 		// close notification, calls before / around / after the 500 ms grace tick of the swapped-out client
@@ -1185,6 +1278,10 @@ func init() {
 		fmt.Printf("Definition c_c11_failq_cap := %d.\n", fq) // the model's failure queue holds one request
 	})
 	props["C11"] = func(a Args) {
+		c11HangDir = a.Out
+		if d := os.Getenv("VERIF_BUILD"); d != "" {
+			c11HangDir = d // survives the removal of the work directory
+		}
 		runProp(Prop[c11Case]{
 			ID:       "C11",
 			Require:  "From TarsV Require Import Conc.ClientConn.",
@@ -1217,12 +1314,16 @@ func init() {
 				if c.PushClose {
 					pz += "/srvclose"
 				}
+				if c.QueueLen > 0 {
+					pz += fmt.Sprintf("/q%d", c.QueueLen)
+				}
 				return fmt.Sprintf("%s/b%d/s%d/%s%s", c.Mode, c.Burst, c.Seq, c11DelayClass(c.DelayUs), pz)
 			},
 			Extra: func(tier string, rng *rand.Rand, res *Result) {
 				res.Traces = len(res.Cases)
 				res.Stats["call_timeout_ms"] = c11TimeoutMs
 				res.Stats["slow_limit_ms"] = c11SlowMs
+				res.Stats["script_executions_abandoned_by_watchdog"] = atomic.LoadInt32(&c11Hung)
 				res.Stats["timing_rule"] = "a monitor failure counts only if the same script shows the same failure in 3 of up to 12 immediate re-runs"
 			},
 		}, a)
